@@ -60,6 +60,7 @@ type SegCase struct {
 	Multi    int       `json:"multi"` // number of random multi-cut segmentations
 	MaxBody  int       `json:"max_body,omitempty"` // Engine.MaxHTTPBodySize
 	Server   bool      `json:"server,omitempty"`   // requests: through the real ServerProcessor and a handler
+	MovingPool bool    `json:"moving_pool,omitempty"` // mempool.DefaultMemPool behaves like AlignedAllocator (Append moves)
 }
 
 func genMuts(r *simrt.Rand, n int) []Mut {
@@ -89,6 +90,7 @@ func genSegCase(r *simrt.Rand, tier string) *SegCase {
 	if r.Bool(0.4) {
 		c.MaxBody = r.Pick(1, 16, 64, 300, 1000)
 	}
+	c.MovingPool = r.Bool(0.3)
 	c.Server = !c.Response && len(c.Muts) == 0 && r.Bool(0.5)
 	if c.Server {
 		// requests pipelined behind a closing exchange are legitimately dropped, and how many of
@@ -186,6 +188,11 @@ func shrinkSeg(ci interface{}) []interface{} {
 		x.Server = false
 		out = append(out, x)
 	}
+	if c.MovingPool {
+		x := cp()
+		x.MovingPool = false
+		out = append(out, x)
+	}
 	return out
 }
 
@@ -199,7 +206,7 @@ func describe(err error) string {
 func runSeg(t *testing.T, ci interface{}, trace bool) *common.Outcome {
 	c := ci.(*SegCase)
 	o := &common.Outcome{}
-	e := newEnv(false)
+	e := newEnv2(c.MovingPool, false)
 	defer e.close()
 	eng := newHTTPEngine(e, 0, c.MaxBody, nil)
 	run := func(pieces [][]byte) *feedResult { return feed(e, eng, c.Response, pieces) }
